@@ -378,6 +378,36 @@ class CallsMixin:
                 f = z3.Exists([i], z3.And(0 <= i, i < nn, z3.Select(el, i))) if n == "any" else z3.ForAll([i], z3.Implies(z3.And(0 <= i, i < nn), z3.Select(el, i)))
                 out.append((s1, V(("bool",), f)))
             return out
+        if n == "sum" and isinstance(a0, ast.ListComp) and len(e.args) == 2 and isinstance(e.args[1], ast.List) and not e.args[1].elts \
+                and ("sumcomp", self.current) in self.loops:
+            # sum([f(x) for x in xs], []) with an effectful f: by the definition of sum and of list `+` this is
+            #     acc = [];  for x in xs: acc = acc + f(x)
+            # and since every intermediate `acc` is a new list nobody else holds, `acc.extend(f(x))` gives the same final list.
+            # The loop is run under the LoopSpec registered for it (key ("sumcomp", <function>): the function's one such expression); the accumulator is the local `__sum_acc`.
+            g = a0.generators[0]
+            if len(a0.generators) != 1 or g.ifs:
+                raise Unsupported("sum over a filtered / nested comprehension with effects")
+            ety = getattr(self.loops[("sumcomp", self.current)], "acc_type", None)
+            if ety is None:
+                raise Unsupported("sum-comprehension loop spec without acc_type")
+            s0 = st.copy(); s0.env = dict(s0.env)
+            s0.env["__sum_acc"] = s0.new_list(ety, "sumacc")
+            body = ast.Expr(value=ast.Call(func=ast.Attribute(value=ast.Name(id="__sum_acc", ctx=ast.Load()), attr="extend", ctx=ast.Load()), args=[a0.elt], keywords=[]))
+            loop = ast.For(target=g.target, iter=g.iter, body=[body], orelse=[])
+            ast.copy_location(loop, e); ast.fix_missing_locations(loop)
+            out = []
+            body._pyvc_ghost_key = "sumcomp-extend"
+            for s1, kind, val in self.loops[("sumcomp", self.current)].run_for(self, loop, s0, d):
+                if kind == "fall":
+                    acc = s1.env["__sum_acc"]
+                    s1.env = dict(s1.env); s1.env.pop("__sum_acc", None)
+                    for nn in ast.walk(g.target):
+                        if isinstance(nn, ast.Name) and nn.id not in st.env:
+                            s1.env.pop(nn.id, None)       # comprehension variables do not leak
+                    out.append((s1, acc))
+                else:
+                    self.escaped.append((s1, kind, val))
+            return out
         if n == "sum" and isinstance(a0, ast.ListComp):
             out = []
             rest = e.args[1:]
@@ -462,6 +492,12 @@ class CallsMixin:
             if len(res) != 1 or len(self.escaped) != nesc:
                 raise Unsupported(f"comprehension body branches: {ast.unparse(e)[:60]}")
             s2, v = res[0]
+            # the element expression is evaluated once, for an arbitrary index, on a scratch state: that is only an account of the comprehension
+            # when the expression has no effect on the heap (a call that writes, allocates or draws would be dropped silently)
+            for hk, hv in s2.heap.items():
+                if hk not in sb.heap or not sb.heap[hk].eq(hv):
+                    if hk in sb.heap or not hv.eq(z3.Const("H0_" + hk, hv.sort())):
+                        raise Unsupported(f"comprehension element with a heap effect ({hk}): {ast.unparse(e)[:60]}")
             # obligations of the body hold for every index
             for ob in sb.obl:
                 s1.oblige("forall-elem:" + ob["name"], z3.ForAll([i], z3.Implies(z3.And(0 <= i, i < n, *ob["pc"][len(s1.pc):]), ob["goal"])), ob["kind"])
